@@ -12,3 +12,300 @@ PROPERTY = "C14"
 RULE = c14_codec.RULE
 ASSUMPTIONS = list(c14_codec.ASSUMPTIONS)
 ENGINES = [Scte35Codec()]
+
+
+# ====================================================================== HTTP-level event delivery
+
+RULE = (RULE + " event_delivery: Hypothesis draws (stream fixture/synthetic, vod or live, event type ping/scte35/both, "
+        "schedule start/interval/count/duration/timescale/version/inband with interval >= 100 ms, clock); all emsg "
+        "boxes of a run of consecutive video segments (vod: every number; live: up to 40 consecutive numbers ending "
+        "at the newest edge, which crosses loop boundaries) are collected with the independent box reader and "
+        "compared with the schedule; out-of-band schedules are read from the manifest's EventStream; SCTE-35 "
+        "payloads are decoded with vt/scte.py. Non-trivial (delivery): >= 1 event on a segment boundary, >= 2 events "
+        "in one segment, the last scheduled event inside the run, or the run crosses a loop.")
+ASSUMPTIONS += [
+    "schedule defaults as documented by the option list: count 0 (unbounded), duration 200, interval 1000, start 0, "
+    "timescale 100, version 0 (in-band scte35 is always version 1), inband on",
+    "an event within one event-timescale tick of a segment boundary may be carried by either neighbour (the server "
+    "floors segment boundaries into the event timescale); events within one tick of the run's ends are optional",
+    "vt/shims stand in for flask_login, sqlalchemy_jsonfield, dotenv, netifaces; harness-controlled clock",
+]
+DEFAULTS = {"count": 0, "duration": 200, "inband": True, "interval": 1000, "start": 0, "timescale": 100, "version": 0}
+SCHEME = {"ping": "urn:dash-live:pingpong:2022", "scte35": "urn:scte:scte35:2014:xml+bin"}
+
+
+def schedule_of(opts: dict, prefix: str) -> dict:
+    s = dict(DEFAULTS)
+    for k in list(s):
+        v = opts.get(f"{prefix}__{k}")
+        if v is None:
+            continue
+        if k == "inband":
+            s[k] = v.lower() in ("1", "true", "on")
+        else:
+            s[k] = int(v)
+    if prefix == "scte35" and s["inband"]:
+        s["version"] = 1
+    return s
+
+
+def check_delivery(case) -> Outcome:
+    import base64
+    from fractions import Fraction
+    from lxml import etree
+    from .. import app, clock, isobox, mpd, scte, session, strategies
+    env = app.shared_env()
+    out = Outcome()
+    mode = case["mode"]
+    c = dict(case, template="hand_made.mpd")
+    T, url, consts = session.live_case_to_request(env, c)
+    if mode == "vod":
+        url = url.replace("/dash/live/", "/dash/vod/", 1)
+    s = session.Session(env, T, url).load()
+    out.cls("mode:" + mode, "events:" + case["opts"].get("events", ""))
+    if s.resp.status != 200 or s.mpd is None:
+        out.trivial = f"manifest-{s.resp.status}"
+        if s.resp.status >= 500:
+            out.fail(f"manifest-5xx/{type(s.resp.exc).__name__}/{s.resp.exc_where}", f"{url}: {s.resp.exc!r}")
+        return out
+    m = s.mpd
+    desc = f"T={T.isoformat()} {url}"
+    kinds = [k for k in case["opts"].get("events", "").split(",") if k]
+    scheds = {k: schedule_of(case["opts"], k) for k in kinds}
+    # ---- manifest side
+    Q = mpd.Q
+    period = m.root.find(Q + "Period")
+    for k, sc in scheds.items():
+        if sc["inband"]:
+            found = [e for e in m.root.iter(Q + "InbandEventStream") if e.get("schemeIdUri") == SCHEME[k]]
+            if not found:
+                out.fail(f"manifest/{k}/InbandEventStream-missing", desc)
+            for e in found:
+                if e.get("timescale") != str(sc["timescale"]):
+                    out.fail(f"manifest/{k}/inband-timescale", f"{desc}: {e.get('timescale')} want {sc['timescale']}")
+        else:
+            found = [e for e in period.findall(Q + "EventStream") if e.get("schemeIdUri") == SCHEME[k]]
+            if not found:
+                out.fail(f"manifest/{k}/EventStream-missing", desc)
+                continue
+            es = found[0]
+            if es.get("timescale") != str(sc["timescale"]):
+                out.fail(f"manifest/{k}/eventstream-timescale", f"{desc}: {es.get('timescale')}")
+            evs = es.findall(Q + "Event")
+            if len(evs) != sc["count"]:
+                out.fail(f"manifest/{k}/event-count", f"{desc}: {len(evs)} Events listed, schedule count {sc['count']}")
+            for idx, ev in enumerate(evs):
+                want_pt = sc["start"] + idx * sc["interval"]
+                if ev.get("id") != str(idx) or ev.get("presentationTime") != str(want_pt) or ev.get("duration") != str(sc["duration"]):
+                    out.fail(f"manifest/{k}/event-fields", f"{desc}: Event {idx}: id {ev.get('id')} presentationTime {ev.get('presentationTime')} (want {want_pt}) duration {ev.get('duration')}")
+                    break
+                if k == "scte35":
+                    b = next((x for x in ev.iter() if isinstance(x.tag, str) and x.tag.endswith("}Binary")), None)
+                    if b is None or not (b.text or "").strip():
+                        out.fail("manifest/scte35/no-binary", f"{desc}: Event {idx}")
+                        break
+                    _judge_scte(base64.b64decode(b.text.strip()), idx, want_pt, sc, out, f"{desc} manifest Event {idx}", scte)
+    # ---- in-band delivery over a run of consecutive video segments
+    inband = {k: v for k, v in scheds.items() if v["inband"]}
+    files = env.streams[consts["stream"]]["files"]
+    rep = next((r for r in m.reps if r.content_type == "video" and r.template is not None and r.uses_number and r.id in files), None)
+    if rep is None or not inband:
+        out.nontrivial = bool(scheds) and not inband
+        return _dedupe(out)
+    scn = session.scan(files[rep.id]["path"])
+    tpl = rep.template
+    ts = tpl.timescale
+    if mode == "vod":
+        numbers = list(range(tpl.start_number, tpl.start_number + len(scn["durations"])))
+    else:
+        win = mpd.number_window(rep, s.now)
+        if win is None:
+            out.trivial = "empty-window"
+            return out
+        first, last = win
+        numbers = list(range(max(first, last - 39), last + 1))
+    # emsg ids and SCTE-35 splice_event_id are 32-bit fields: schedules whose event index would exceed that
+    # inside the run are outside the statement's "id of k"
+    if mode == "live":
+        for k, sc in inband.items():
+            if sc["count"] == 0 and (s.now - m.ast) * sc["timescale"] / sc["interval"] >= 2**32 - 1:
+                out.trivial = "event-index-exceeds-32-bits"
+                return _dedupe(out)
+    segs = []      # (n, start ticks, end ticks, [emsg dicts])
+    for n in numbers:
+        r = s.fetch(rep.media_url(number=n))
+        if r.status != 200:
+            if r.status >= 500:
+                out.fail(f"segment-5xx/{type(r.exc).__name__}/{r.exc_where}", f"{desc} $Number$={n}: {r.exc!r}")
+            segs.append(None)
+            continue
+        try:
+            root = isobox.Root(r.body)
+            frag = isobox.Fragment([b for b in root.children if b.type in (b"styp", b"sidx", b"emsg", b"moof", b"mdat")], scn["iv_size"])
+            ems = [isobox.emsg(b) for b in frag.emsgs]
+            dur = frag.duration() if (all("duration" in x for x in frag.trun["samples"]) or "default_sample_duration" in frag.tfhd) else None
+        except Exception as exc:
+            out.fail(f"segment-unreadable/{type(exc).__name__}", f"{desc} $Number$={n}: {exc}")
+            segs.append(None)
+            continue
+        if dur is None:
+            dur = tpl.duration
+        segs.append((n, frag.decode_time, frag.decode_time + dur, ems))
+    runs = [x for x in segs if x is not None]
+    if len(runs) != len(segs) or not runs:
+        out.trivial = "run-incomplete"          # retrievability is C01's
+        return _dedupe(out)
+    # the statement is about a run of consecutive SEGMENTS.  With irregular stored durations consecutive
+    # $Number$ values can deliver the same stored segment twice or skip one (nearest-segment mapping, see C02);
+    # keep the longest prefix-free run of truly consecutive segments (a gap is allowed only at a loop wrap,
+    # where the last segment of a loop is followed by the first one of the next loop)
+    ref_in_ts = consts["ref_ticks"] * ts // consts["timescale"]
+    clean = [runs[0]]
+    for b in runs[1:]:
+        a = clean[-1]
+        drift = ref_in_ts - sum(scn["durations"])
+        if b[1] == a[2] or (drift > 0 and b[1] - a[2] == drift and b[1] % ref_in_ts == 0):
+            clean.append(b)
+        else:
+            out.cls("number-mapping-not-consecutive")
+            break
+    # the last segment of a loop covers the interval up to the start of the next loop (the timeline advertises
+    # it with that duration)
+    runs = [(a[0], a[1], (b[1] if b is not None and b[1] > a[2] else a[2]), a[3]) for a, b in zip(clean, clean[1:] + [None])]
+    drift = ref_in_ts - sum(scn["durations"])
+    if mode == "live" and drift > 0 and (runs[-1][2] + drift) % ref_in_ts == 0:
+        a = runs[-1]
+        runs[-1] = (a[0], a[1], a[2] + drift, a[3])
+    run_start, run_end = Fraction(runs[0][1], ts), Fraction(runs[-1][2], ts)
+    crosses_loop = (runs[-1][2] - runs[0][1]) > consts["ref_ticks"] * ts // consts["timescale"] or \
+        any(a[2] != b[1] for a, b in zip(runs, runs[1:]))
+    nontrivial = crosses_loop
+    for k, sc in inband.items():
+        ets = sc["timescale"]
+        tick = Fraction(1, ets)
+        got = {}      # id -> list of (segment, emsg)
+        for seg in runs:
+            for e in seg[3]:
+                if e["scheme_id_uri"] != SCHEME[k]:
+                    continue
+                got.setdefault(e["id"], []).append((seg, e))
+        # model
+        def instant(kk):
+            return Fraction(sc["start"] + kk * sc["interval"], ets)
+        k_lo = max(0, -((-(run_start * ets - sc["start"])) // sc["interval"]) - 1)
+        kk = int(k_lo)
+        required, optional = set(), set()
+        while True:
+            if sc["count"] > 0 and kk >= sc["count"]:
+                break
+            e = instant(kk)
+            if e >= run_end:
+                break
+            if e >= run_start - tick:
+                if e < run_start or e >= run_end - tick:
+                    optional.add(kk)
+                else:
+                    required.add(kk)
+            kk += 1
+            if kk - k_lo > 200000:
+                break
+        for eid, lst in got.items():
+            if len(lst) > 1:
+                out.fail(f"{k}/event-delivered-more-than-once", f"{desc}: id {eid} in segments {[x[0][0] for x in lst]}")
+            if eid not in required and eid not in optional:
+                why = "id>=count" if sc["count"] > 0 and eid >= sc["count"] else "outside-run"
+                out.fail(f"{k}/unscheduled-event/{why}", f"{desc}: emsg id {eid} in $Number$={lst[0][0][0]} (schedule {sc})")
+        missing = sorted(required - set(got))
+        if missing:
+            out.fail(f"{k}/scheduled-event-missing", f"{desc}: ids {missing[:5]} (schedule {sc}, run {float(run_start)}..{float(run_end)})")
+        per_seg = {}
+        for eid, lst in got.items():
+            seg, e = lst[0]
+            ek = instant(eid)
+            s0, s1 = Fraction(seg[1], ts), Fraction(seg[2], ts)
+            per_seg[seg[0]] = per_seg.get(seg[0], 0) + 1
+            if not (s0 - tick <= ek < s1):
+                out.fail(f"{k}/event-in-wrong-segment", f"{desc}: id {eid} at {float(ek)}s carried by $Number$={seg[0]} [{float(s0)},{float(s1)})")
+            if abs(ek - s0) <= tick or abs(ek - s1) <= tick:
+                nontrivial = True
+            if e["timescale"] != ets:
+                out.fail(f"{k}/emsg-timescale", f"{desc}: {e['timescale']} want {ets}")
+            if e["version"] != sc["version"]:
+                out.fail(f"{k}/emsg-version", f"{desc}: {e['version']} want {sc['version']}")
+            if e["event_duration"] != sc["duration"]:
+                out.fail(f"{k}/emsg-duration", f"{desc}: {e['event_duration']} want {sc['duration']}")
+            if e["version"] == 1:
+                if e["presentation_time"] != sc["start"] + eid * sc["interval"]:
+                    out.fail(f"{k}/v1-presentation-time", f"{desc}: id {eid}: {e['presentation_time']} want {sc['start'] + eid * sc['interval']}")
+            else:
+                resolved = s0 + Fraction(e["presentation_time_delta"], ets)
+                if abs(resolved - ek) > tick:
+                    out.fail(f"{k}/v0-delta-resolves-elsewhere", f"{desc}: id {eid}: segment start {float(s0)} + delta {e['presentation_time_delta']}/{ets} = {float(resolved)} want {float(ek)}")
+            if k == "scte35":
+                _judge_scte(e["message_data"], eid, sc["start"] + eid * sc["interval"], sc, out, f"{desc} emsg id {eid}", scte)
+            elif e["message_data"] != (b"ping" if eid % 2 == 0 else b"pong"):
+                out.fail("ping/payload", f"{desc}: id {eid}: {e['message_data'][:10]!r}")
+        if any(v >= 2 for v in per_seg.values()):
+            nontrivial = True
+        if sc["count"] > 0 and (sc["count"] - 1) in got:
+            nontrivial = True
+    out.weight = max(1, len(runs))
+    out.nontrivial = nontrivial
+    return _dedupe(out)
+
+
+def _judge_scte(data: bytes, event_id: int, presentation_time: int, sc: dict, out: Outcome, where: str, scte):
+    try:
+        d = scte.decode_section(data)
+    except Exception as exc:
+        out.fail(f"scte35/undecodable/{type(exc).__name__}", f"{where}: {exc}")
+        return
+    if not d.get("crc_ok"):
+        out.fail("scte35/crc", where)
+    if not d.get("length_ok"):
+        out.fail("scte35/section-length", where)
+    cmd = d.get("command") or {}
+    if d.get("splice_command_type") != 5:
+        out.fail("scte35/not-splice-insert", f"{where}: type {d.get('splice_command_type')}")
+        return
+    if cmd.get("splice_event_id") != event_id:
+        out.fail("scte35/event-id", f"{where}: {cmd.get('splice_event_id')} want {event_id}")
+    want_pts = (presentation_time * 90000 // sc["timescale"]) & 0x1FFFFFFFF
+    st_ = cmd.get("splice_time") or {}
+    if st_.get("pts") != want_pts:
+        out.fail("scte35/pts", f"{where}: {st_.get('pts')} want {want_pts}")
+    bd = cmd.get("break_duration") or {}
+    if bd.get("duration") != sc["duration"] * 90000 // sc["timescale"]:
+        out.fail("scte35/break-duration", f"{where}: {bd.get('duration')} want {sc['duration'] * 90000 // sc['timescale']}")
+
+
+def _dedupe(out: Outcome) -> Outcome:
+    seen = {}
+    for sg, d in out.violations:
+        seen.setdefault(sg, d)
+    out.violations = list(seen.items())
+    return out
+
+
+class EventDelivery(Engine):
+    name = "event_delivery"
+
+    def budget(self, tier):
+        return 700 if tier == "quick" else 30_000
+
+    def strategy(self, tier):
+        from hypothesis import strategies as st
+        from .. import app, strategies, synth
+        app.boot()
+        return st.fixed_dictionaries({
+            "stream": st.one_of(st.sampled_from(["bbb", "tears"]), st.builds(lambda sp: {"synth": sp}, synth.stream_specs(max_segments=8, allow_enc=False))),
+            "mode": st.sampled_from(["vod", "live", "live"]),
+            "opts": strategies.event_options(),
+            "clock": strategies.live_clock(),
+        })
+
+    def check(self, case):
+        return check_delivery(case)
+
+
+ENGINES = [Scte35Codec(), EventDelivery()]
